@@ -814,12 +814,6 @@ theorem writeLine_node_plain (id : Nat) (variant : NodeVariant) (symbol : Option
       nodeHeadText { id, variant, symbol, comment := none } := by
   cases symbol <;> simp [writeLine, writeLineUnterminated, writeNode, nodeHeadText, trailerText]
 
-/-- Where `next_line` leaves the reader after the line `l`: behind the newline of a line without
-comment, ON the newline of a line that ends in a comment. -/
-def Line.endsInComment : Line → Bool
-  | .comment _ => true
-  | .node nd => nd.comment.isSome
-
 /-- `next_line` after its `skip_whitespace`. -/
 def nextLineRest : PM (Option Line) := do
   match ← tryNode with
